@@ -2,6 +2,7 @@
   C09 — The views of one result agree: Text, HTML, ContentImages and WordCount.
 -/
 import Distill.Model.Words
+import Distill.Props.FiltersProps
 import Distill.Proofs.Render
 import Distill.Gen.Funcs
 namespace Distill.C09
